@@ -98,6 +98,9 @@ type Cfg struct {
 	Indexes  []string `json:"indexes"` // subset of ia ib ic
 	SlowKey  int      `json:"slowKey"` // 0 none, 1 yield, 2 sleep 1ms in the Key function of the first index
 	Standing []Query  `json:"standing"`
+	// ReuseIQ: the query callback hands out the same *IndexQuery value every time it is given
+	// the same query (an application keeping its prepared queries).
+	ReuseIQ bool `json:"reuseIQ,omitempty"`
 }
 
 // Case is a sequential case.
@@ -203,6 +206,7 @@ type machine struct {
 	// scanHook, when set, is called (and cleared) the first time a query with filter "hook"
 	// looks at an index entry: something that happens while a query is scanning the index
 	scanHook func()
+	prepared map[string]*badgerstore.IndexQuery
 }
 
 func (m *machine) fireScan() {
@@ -238,7 +242,19 @@ func newMachine(cfg Cfg) (*machine, error) {
 		if q.Get("filter") == "hook" {
 			filter = func([]byte) bool { m.fireScan(); return true }
 		}
-		return &badgerstore.IndexQuery{Index: qs.Index(q.Get("index")), KeyPrefix: prefix, FilterKeys: filter, Offset: off, Limit: lim, Reverse: q.Get("reverse") == "true"}, nil
+		iq := &badgerstore.IndexQuery{Index: qs.Index(q.Get("index")), KeyPrefix: prefix, FilterKeys: filter, Offset: off, Limit: lim, Reverse: q.Get("reverse") == "true"}
+		if cfg.ReuseIQ {
+			m.mu.Lock()
+			defer m.mu.Unlock()
+			if m.prepared == nil {
+				m.prepared = map[string]*badgerstore.IndexQuery{}
+			}
+			if p := m.prepared[q.Encode()]; p != nil {
+				return p, nil
+			}
+			m.prepared[q.Encode()] = iq
+		}
+		return iq, nil
 	})
 	for i, name := range cfg.Indexes {
 		name, first := name, i == 0
